@@ -65,18 +65,41 @@ func runC05(c *core.Ctx) {
 		// literals that emit and mention a limit
 		var lits []*ast.FuncLit
 		derivedFromLimit := limitDerivedVars(fn)
-		for _, fl := range findFuncLits(fn.Decl.Body) {
+		// the callbacks handed to a source: literals in place, or made by a factory of the package (its parameters
+		// then stand for the arguments: `next` for produce, a bound for the limit)
+		candidates := findFuncLits(fn.Decl.Body)
+		for _, rc := range nodeRunCalls(p, fn) {
+			if rc.Produce != nil && len(getLitBinds(rc.Produce)) > 0 {
+				candidates = append(candidates, rc.Produce)
+			}
+		}
+		for _, fl := range candidates {
+			fl := fl
 			emits, mentionsLimit, nested := false, false, false
 			ast.Inspect(fl.Body, func(n ast.Node) bool {
 				if inner, ok := n.(*ast.FuncLit); ok && inner != fl {
 					nested = nested || true
 					return false
 				}
-				if call, ok := n.(*ast.CallExpr); ok && p.CalleeName(info, call) == s.emit {
-					emits = true
+				if call, ok := n.(*ast.CallExpr); ok {
+					cn := p.CalleeName(info, call)
+					if id, isId := core.Unparen(call.Fun).(*ast.Ident); isId && strings.HasPrefix(cn, "value:") {
+						if a := litParamAlias(fl, info.Uses[id]); a != "" {
+							cn = "value:" + a
+						}
+					}
+					if cn == s.emit {
+						emits = true
+					}
 				}
-				if id, ok := n.(*ast.Ident); ok && (strings.Contains(strings.ToLower(id.Name), "limit") || derivedFromLimit[id.Name]) {
-					mentionsLimit = true
+				if id, ok := n.(*ast.Ident); ok {
+					name := id.Name
+					if a := litParamAlias(fl, info.Uses[id]); a != "" {
+						name = a
+					}
+					if strings.Contains(strings.ToLower(name), "limit") || derivedFromLimit[name] {
+						mentionsLimit = true
+					}
 				}
 				return true
 			})
